@@ -16,7 +16,7 @@ import (
 
 var truthValues = []lang.Value{
 	lang.Bool(true), lang.Bool(false), lang.Null(),
-	lang.Int(0), lang.Int(1), lang.Int(-1), lang.Int(2), lang.Int(65535), lang.Int(-9007199254740993),
+	lang.Int(0), lang.Int(1), lang.Int(-1), lang.Int(2), lang.Int(12), lang.Int(13), lang.Int(24), lang.Int(268), lang.Int(269), lang.Int(65535), lang.Int(-9007199254740993),
 	lang.Float(0), lang.Float(0.5), lang.Float(-0.5), lang.Float(1e-7), lang.Float(3),
 	lang.Str(""), lang.Str("a"), lang.Str(" "), lang.Str("0"), lang.Str("false"),
 	lang.Array(), lang.Array(lang.Int(0)), lang.Array(lang.Array()),
@@ -92,7 +92,7 @@ func truthOperand(c *Case, prelude *string, name string, v lang.Value, prov stri
 	return nil, false
 }
 
-var truthPositions = []string{"if", "while", "ternary", "and-left", "and-right", "or-left", "or-right", "not", "not-not", "not-in-if", "run"}
+var truthPositions = []string{"if", "while", "ternary", "and-left", "and-right", "or-left", "or-right", "not", "not-not", "not-in-if", "not-in-ternary", "not-in-while", "run"}
 
 func truthScript(pos string, e lang.Expr) (string, func(truth bool, v lang.Value) lang.Value, bool) {
 	x := lang.ExprText(lang.Paren{X: e})
@@ -154,6 +154,24 @@ func truthScript(pos string, e lang.Expr) (string, func(truth bool, v lang.Value
 			}
 			return lang.Str("F")
 		}, false
+	case "not-in-ternary", "not-in-while":
+		body := `return ! ` + x + ` ? "T" : "F";`
+		if pos == "not-in-while" {
+			body = `n = 0; while ( ! ` + x + ` ) { n = n + 1; if ( n >= 1 ) { return "T"; } } return "F";`
+		}
+		return body, func(t bool, v lang.Value) lang.Value {
+			nv := false
+			switch v.K {
+			case lang.KBool:
+				nv = !v.B
+			case lang.KNull:
+				nv = true
+			}
+			if nv {
+				return lang.Str("T")
+			}
+			return lang.Str("F")
+		}, false
 	case "run":
 		return `return ` + x + `;`, func(t bool, v lang.Value) lang.Value { return v }, true
 	}
@@ -192,7 +210,13 @@ func TestC05Table(t *testing.T) {
 					continue
 				}
 				body, expect, useRun := truthScript(pos, e)
-				c.Script = prelude + body
+				// dummy names first, so that the tested name lands on varying
+				// constant-pool indexes (12 and 13 are the opcodes of true/false)
+				shift := ""
+				for k := 0; k < (n*7)%31; k++ {
+					shift += fmt.Sprintf("q%d = %d; ", k, k%2)
+				}
+				c.Script = shift + prelude + body
 				c.UseRun = useRun
 				c.Exp = Expect{Val: expect(v.Truth(), v)}
 				col.Class("position:" + pos)
